@@ -898,7 +898,13 @@ impl PreExp {
             Self::BinaryOperation(_, _, _) | Self::UnaryOperation(_, _)
         )
     }
-    fn to_string_with_precedence(&self, previous_precedence: u8) -> String {
+    /// Renders this expression as the `is_right` operand of `parent`, adding the
+    /// parentheses needed for the text to parse back to the same tree: a child of
+    /// lower precedence, and a child of equal precedence unless it sits on the
+    /// side its parent associates to and associates the same way itself
+    /// (`a - b - c` is `(a - b) - c`, but `a - (b - c)` and `a / (b * c)` keep
+    /// their parentheses).
+    fn to_string_with_precedence(&self, parent: BinOp, is_right: bool) -> String {
         match self {
             Self::BinaryOperation(op, lhs, rhs) => {
                 //TODO add implied multiplication like 2x 2(x + y) etc...
@@ -908,9 +914,13 @@ impl PreExp {
                        (number | parenthesis) ~ variable
                    }
                 */
-                let lhs_str = lhs.to_string_with_precedence(op.precedence());
-                let rhs_str = rhs.to_string_with_precedence(op.precedence());
-                if op.precedence() < previous_precedence {
+                let lhs_str = lhs.to_string_with_precedence(**op, false);
+                let rhs_str = rhs.to_string_with_precedence(**op, true);
+                let same_level_is_safe = op.is_left_associative() == parent.is_left_associative()
+                    && is_right != parent.is_left_associative();
+                let needs_parenthesis = op.precedence() < parent.precedence()
+                    || (op.precedence() == parent.precedence() && !same_level_is_safe);
+                if needs_parenthesis {
                     format!("({} {} {})", lhs_str, **op, rhs_str)
                 } else {
                     format!("{} {} {}", lhs_str, **op, rhs_str)
@@ -979,8 +989,8 @@ impl fmt::Display for PreExp {
             Self::BlockFunction(f) => f.to_string(),
             Self::BlockScopedFunction(f) => f.to_string(),
             Self::BinaryOperation(op, lhs, rhs) => {
-                let rhs = rhs.to_string_with_precedence(op.precedence());
-                let lhs = lhs.to_string_with_precedence(op.precedence());
+                let rhs = rhs.to_string_with_precedence(**op, true);
+                let lhs = lhs.to_string_with_precedence(**op, false);
                 format!("{} {} {}", lhs, **op, rhs)
             }
             Self::CompoundVariable(c) => c.to_string(),
